@@ -397,8 +397,8 @@ def check_wind_in_step(prog: Program, rep, F: IntegrateFacts, rule: str) -> None
     problems = []
     n_paths = old_paths = new_paths = 0
     for path, leaf in leaves(tree):
-        if leaf.kind == 'raise':
-            continue
+        if leaf.kind in ('raise', 'break', 'return'):
+            continue            # (the loop is left: no step is taken on this path)
         v1 = leaf.state.env.get(F.V)
         if not isinstance(v1, Inst):
             raise AnalysisError(f'velocity after one step is {v1!r}')
